@@ -33,9 +33,9 @@ func (s *c09shed) avg() float64 {
 	return s.sh.avgFlying
 }
 
-func runC09ShedCase(c kit.Case, size, q, tickMs int, clock *kit.Clock, over *atomic.Bool, rep *kit.Reporter) (v kit.Verdict) {
+func runC09ShedCase(c kit.Case, size, q, tickUs int, clock *kit.Clock, over *atomic.Bool, rep *kit.Reporter) (v kit.Verdict) {
 	v = kit.Verdict{Case: c.Index, OK: true}
-	tick := time.Duration(tickMs) * time.Millisecond
+	tick := time.Duration(tickUs) * time.Microsecond
 	clock.Advance(time.Duration(3+c.Index%17) * time.Millisecond)
 	over.Store(false)
 	shd, ok := NewAdaptiveShedder(WithWindow(time.Duration(size*q)*tick), WithBuckets(size)).(*adaptiveShedder)
@@ -46,7 +46,7 @@ func runC09ShedCase(c kit.Case, size, q, tickMs int, clock *kit.Clock, over *ato
 	for i, st := range c.Steps {
 		fail := func(key, msg string) kit.Verdict {
 			v.OK, v.Step, v.Key = false, i, key
-			v.Msg = fmt.Sprintf("buckets=%d bucket=%dms step %d (%s): %s", size, q*tickMs, i, kit.Str(st["op"]), msg)
+			v.Msg = fmt.Sprintf("buckets=%d Q=%d tickus=%d (bucket %v) step %d (%s): %s", size, q, tickUs, time.Duration(q)*tick, i, kit.Str(st["op"]), msg)
 			return v
 		}
 		op := kit.Str(st["op"])
@@ -164,12 +164,12 @@ func TestVerifC09Shed(t *testing.T) {
 	saved := systemOverloadChecker
 	systemOverloadChecker = func(int64) bool { return over.Load() }
 	defer func() { systemOverloadChecker = saved }()
-	size, q, tickMs := kit.EnvInt("VERIF_SIZE", 4), kit.EnvInt("VERIF_Q", 40), kit.EnvInt("VERIF_TICKMS", 25)
+	size, q, tickUs := kit.EnvInt("VERIF_SIZE", 4), kit.EnvInt("VERIF_Q", 4000), kit.EnvInt("VERIF_TICKUS", 250)
 	shard, shards := kit.EnvInt("VERIF_SHARD", 0), kit.EnvInt("VERIF_SHARDS", 1)
 	for _, c := range cases {
 		if c.Index%shards != shard {
 			continue
 		}
-		rep.Put(runC09ShedCase(c, size, q, tickMs, clock, &over, rep))
+		rep.Put(runC09ShedCase(c, size, q, tickUs, clock, &over, rep))
 	}
 }
